@@ -199,7 +199,9 @@ def run(ctx):
                                                                              "default-channel deliveries vs generated messages per op", "generated messages incl. inputs/outputs vs Op model"]}
     ctx.cov["rule"] = ("workflows with irq/msg/set acts, branches, catches; every action kind incl. invalid and duplicate ones; partial queue releases; non-trivial = at least 8 messages; "
                        "completeness (every started/ended reporting task has its message) is checked at the end of the run; distinct by (model, ops)")
-    ctx.cov["clauses_proved"] = ["emit predicate table (K1)", "message state table: created for the created class, the task's own state for terminal states (K1)",
+    ctx.cov["clauses_proved"] = ["the monitor is sound for every stream: in an accepted stream message ids are pairwise distinct, every task has at most one created and at most one terminal message "
+                                 "with the created one first, every message carries the pid / node id / type / uses / state of its task, a child's created message follows its reporting parent's, "
+                                 "and at the end of the run no started task lacks its created message and no ended task its terminal one (K3)", "emit predicate table (K1)", "message state table: created for the created class, the task's own state for terminal states (K1)",
                                  "every start and ending of an enabled task passes the predicate (K1)", "monitor rejects second terminal message / reused id"]
     ctx.cov["clauses_not_proved"] = ["multiplicity across operations for the engine (monitor on the engine's stream)", "message fields (compared with the operational model's createMessage)"]
 
